@@ -22,7 +22,7 @@ DLC = 'openfilter/filter_runtime/dlcache.py'
 
 
 def in_scope(relpath: str) -> bool:
-    return relpath in (F, DLC) or relpath.startswith('openfilter/filter_runtime/filters/') or relpath == 'openfilter/observability/lineage.py'
+    return relpath in (F, DLC, 'openfilter/filter_runtime/zeromq.py', 'openfilter/filter_runtime/mq.py') or relpath.startswith('openfilter/filter_runtime/filters/') or relpath == 'openfilter/observability/lineage.py'
 
 
 def dlcache_entry(repo):
@@ -363,3 +363,26 @@ def r5(rr, repo):
                     witness=f'{tgt_text} = <value cut from a configuration URI>', key=f'cut-store|{tgt_text}')
     if not eng.cut_config_stores:
         rr.holds('no normalize_config stores a cut configuration URI', key='none')
+
+
+@rule('C15.R6', "what a library says about the address or URI it was given is masked before it is logged: Filter.run and the download cache log the exceptions they catch (ZMQError \"... addr='tcp://user:pw@host:5551'\", "
+                "requests' InvalidURL, ...) - the text of a caught exception object is passed through the mask, never logged raw")
+def r6(rr, repo):
+    sites = []
+    for rel, fname in ((F, 'Filter.run'), (DLC, 'DLCache.ensure')):
+        mod, fn = repo.find(f'{rel}::{fname}')
+        for h in [h for t in ast.walk(fn) if isinstance(t, ast.Try) for h in t.handlers if h.name]:
+            for c in q.calls_in(h):
+                f = c.func
+                is_log = (isinstance(f, ast.Attribute) and f.attr in ('debug', 'info', 'warning', 'error', 'critical', 'exception') and U(f.value).endswith(('logger', 'logging'))) or \
+                    (isinstance(f, ast.IfExp) and all(isinstance(a, ast.Attribute) and U(a.value).endswith('logger') for a in (f.body, f.orelse)))
+                if not is_log or not c.args:
+                    continue
+                uses = [x for x in ast.walk(c.args[0]) if isinstance(x, ast.Name) and x.id == h.name]
+                if not uses:
+                    continue
+                sites.append(c)
+                masked = isinstance(c.args[0], ast.Call) and U(c.args[0].func) in ('hide_uri_users_and_pwds', 'hide_uri_pwds') or \
+                    all(any(isinstance(a, ast.Call) and U(a.func) in ('hide_uri_users_and_pwds', 'hide_uri_pwds') for a in ancestors_of(u) if a is not c) for u in uses)
+                rr.ob(f'{fname}: a caught exception is logged through the mask', masked, mod, c, witness=U(c)[:100], key=f'exc-logged-masked|{fname}|{U(c)[:50]}')
+    rr.floor('log calls of caught exception objects in Filter.run / DLCache.ensure', len(sites), 3)
